@@ -65,7 +65,7 @@ func TestVerifC12Conc(t *testing.T) {
 		t.Fatal(err)
 	}
 	defer os.RemoveAll(parent)
-	root := filepath.Join(parent, "root")
+	root := filepath.Join(parent, filepath.FromSlash(c12Levels), "root")
 	os.MkdirAll(root, 0777)
 	os.WriteFile(filepath.Join(parent, "sentinel"), []byte("outside the storage root"), 0666)
 	cfg := config.NewConfig()
@@ -73,7 +73,7 @@ func TestVerifC12Conc(t *testing.T) {
 	cfg.ProjectID = ""
 	cfg.UploadConfig = cfgfile
 	limit := cfg.MaxRequestBytes
-	uploadPrefix := "root/" + cfg.UploadBucket + "/"
+	uploadPrefix := c12Levels + "/root/" + cfg.UploadBucket + "/"
 	handler := newHandler(ctx, cfg)
 	nreq := 0
 	for _, bh := range in.Behaviours {
@@ -162,13 +162,25 @@ func TestVerifC12Conc(t *testing.T) {
 				sort.Strings(created)
 				sort.Strings(changed)
 				sort.Strings(removed)
-				listing := []string{}
+				var dirsCreated, dirsRemoved []string
+				created, dirsCreated = c12SplitDirs(created)
+				removed, dirsRemoved = c12SplitDirs(removed)
+				out["dirs_created"], out["dirs_removed"] = dirsCreated, dirsRemoved
+				listing, dirs := []string{}, []string{}
 				for p := range after {
 					if strings.HasPrefix(p, uploadPrefix) {
-						listing = append(listing, p)
+						if strings.HasSuffix(p, "/") {
+							if p != uploadPrefix {
+								dirs = append(dirs, p)
+							}
+						} else {
+							listing = append(listing, p)
+						}
 					}
 				}
 				sort.Strings(listing)
+				sort.Strings(dirs)
+				out["dirs"] = dirs
 				// per request: the objects that decode to its report
 				matches := make([][]string, len(rd.Steps))
 				for i := range rd.Steps {
